@@ -264,7 +264,7 @@ class Check:
 
     def match_known(self, f):
         for k in self.known:
-            if k.get('key') is not None and k.get('key') == f['key']:
+            if f['key'] is not None and (k.get('key') == f['key'] or f['key'] in k.get('keys', ())):
                 return k
         return None
 
